@@ -73,5 +73,5 @@ def bdecode(data: bytes, allow_non_dict_return: typing.Optional[bool] = False) -
         if not allow_non_dict_return and not isinstance(result, dict):
             raise ValueError(f'expected dict, got {type(result)}')
         return result
-    except (ValueError, TypeError) as err:
+    except (ValueError, TypeError, IndexError) as err:
         raise DecodeError(err)
